@@ -11,6 +11,7 @@
   preserve the simulation relation `Rel` between the MVCC machine and the abstract snapshot-isolation machine of C04.
 -/
 import AxVerif.Lemmas.Vacuum
+import AxVerif.Lemmas.VacuumGrowth
 namespace AxVerif.Db.C13
 open AxVerif.Db
 
@@ -175,5 +176,257 @@ theorem vacuum_keeps_later_sessions_consistent (cat : Catalog) (pre : List VOp) 
   rw [hcons]
   have e3 : 2 + mid.length = (1 + mid.length) + 1 := by omega
   rw [e3, List.getElem?_cons_succ, List.getElem?_cons_succ, hrep1, hrep2]
+
+
+/-! ### only unneeded versions are removed -/
+
+theorem reached_append (cat : Catalog) (a b : List VOp) :
+    reached cat (a ++ b) = (vfinal Defects.none VDefects.none (vfinal Defects.none VDefects.none (VState.init cat) a) b).db := by
+  unfold reached; rw [vfinal_append]
+
+/-- **VACUUM removes only what no later transaction can need.**  `r` is a stored row when VACUUM runs after the history `ops`
+    (`vacSnap` = the vacuum transaction's snapshot, horizon = last committed id); `S` is the snapshot of a transaction that
+    begins after the VACUUM and after ANY further history `later` (more VACUUMs, reopens, sessions, statements).
+    If VACUUM removes the row, `S` selects no version of it.  If VACUUM keeps the row (as `r'`), `S` reads from `r'` exactly
+    what it reads from `r`, and the version `S` selects in `r` is still there — it is the head of `r'`: every dropped version
+    and every erased delete mark is one `S` does not use. -/
+theorem vacuum_removes_only_unneeded (cat : Catalog) (ops later : List VOp) (r : Row) (hr : r ∈ (reached cat ops).rows) :
+    let σ := reached cat ops
+    let S := (reached cat (ops ++ VOp.vacuum :: later)).freshSnap Defects.none
+    (r.vacuum VDefects.none (vacSnap σ) σ.lastCommitted = none → rowVisible Defects.none S r = none) ∧
+    (∀ r', r.vacuum VDefects.none (vacSnap σ) σ.lastCommitted = some r' →
+      rowVisible Defects.none S r' = rowVisible Defects.none S r ∧
+      ∀ v, r.versions.find? (fun v => S.sees v.creator) = some v → r'.versions.head? = some v) := by
+  intro σ S
+  have hrel := vreach_rel cat ops
+  have hadm : ∀ u ∈ r.owners, S.sees u = (vacSnap σ).cb u ∧ (vacSnap σ).aborted.contains u = !(vacSnap σ).cb u := by
+    intro u hu
+    have hult : u < σ.txns.length := owners_lt σ 0 hrel.1.core.sinv r hr u hu
+    have := later_snapshot_admissible _ _ hrel later u hult
+    simp only [S, reached_append]
+    exact this
+  have hview := Row.vacuum_view (vacSnap σ) S σ.lastCommitted r (fun u hu => (hadm u hu).1) (fun u hu => (hadm u hu).2)
+  refine ⟨?_, ?_⟩
+  · intro hnone
+    rw [hnone] at hview
+    simp only [Option.bind_none, Row.toARow] at hview
+    cases hrv : rowVisible D0 S r with
+    | none => rfl
+    | some vals => rw [hrv] at hview; cases hview
+  · intro r' hsome
+    refine ⟨?_, ?_⟩
+    · rw [hsome] at hview
+      simp only [Option.bind_some, Row.toARow] at hview
+      obtain ⟨e1, e2, _⟩ := Row.vacuum_some hsome
+      cases h1 : rowVisible D0 S r' with
+      | none =>
+        cases h2 : rowVisible D0 S r with
+        | none => rfl
+        | some v2 => rw [h1, h2] at hview; cases hview
+      | some v1 =>
+        cases h2 : rowVisible D0 S r with
+        | none => rw [h1, h2] at hview; cases hview
+        | some v2 =>
+          rw [h1, h2] at hview
+          simp only [Option.map_some, Option.some.injEq, ARow.mk.injEq] at hview
+          show some v1 = some v2
+          rw [hview.2.2]
+    · intro v hsel
+      exact Row.vacuum_keeps_selected (vacSnap σ) S σ.lastCommitted r r' (fun u hu => (hadm u hu).1)
+        (fun u hu => (hadm u hu).2) hsome v hsel
+
+/-- what VACUUM leaves of a row: no delete mark, only committed versions, and below the head only versions written by the
+    horizon transaction itself (the one that committed last): nothing older than the horizon survives -/
+theorem no_chain_survives (cat : Catalog) (ops : List VOp) (r r' : Row) (hr : r ∈ (reached cat ops).rows)
+    (hv : r.vacuum VDefects.none (vacSnap (reached cat ops)) (reached cat ops).lastCommitted = some r') :
+    r'.deleters = [] ∧ r'.versions ≠ [] ∧ (∀ w ∈ r'.versions, (reached cat ops).isCommitted w.creator) ∧
+    (∀ w ∈ r'.versions.tail, w.creator = (reached cat ops).lastCommitted) := by
+  obtain ⟨h1, h2, h3, h4⟩ := vacuum_row_shape _ _ (vreach_rel cat ops).1 r r' hr hv
+  exact ⟨h1, h2, h3, fun w hw => (h4 w hw).1⟩
+
+/-- **VACUUM frees space**: it never stores more than before — in any state, for any defect setting -/
+theorem vacuum_size_le (D : Defects) (V : VDefects) (σ : State) : (σ.vacuum D V).size ≤ σ.size := by
+  unfold State.size State.vacuum State.vacuumWith
+  rw [commitTxn_rows]
+  exact sizeRows_vacuumRows_le V _ _ σ.rows
+
+/-! ### idempotence -/
+
+/-- the design's statement: a second VACUUM changes neither what is read nor the size -/
+def vacuum_idempotent_statement : Prop :=
+  ∀ (cat : Catalog) (ops : List VOp),
+    let σ := reached cat ops
+    let σ1 := σ.vacuum Defects.none VDefects.none
+    let σ2 := σ1.vacuum Defects.none VDefects.none
+    view Defects.none (σ2.freshSnap Defects.none) σ2.rows = view Defects.none (σ1.freshSnap Defects.none) σ1.rows ∧
+    σ2.size = σ1.size
+
+/-- **Idempotence (proved part).**  After any history: a second VACUUM changes nothing a later transaction reads, never
+    stores more, drops no row and leaves exactly one version per row and no delete mark; from the second VACUUM on the size
+    does not change any more. -/
+theorem vacuum_idempotent_partial (cat : Catalog) (ops : List VOp) :
+    let σ := reached cat ops
+    let σ1 := σ.vacuum Defects.none VDefects.none
+    let σ2 := σ1.vacuum Defects.none VDefects.none
+    let σ3 := σ2.vacuum Defects.none VDefects.none
+    view Defects.none (σ2.freshSnap Defects.none) σ2.rows = view Defects.none (σ1.freshSnap Defects.none) σ1.rows ∧
+    σ2.size ≤ σ1.size ∧ σ2.rows.length = σ1.rows.length ∧ σ2.size = σ2.rows.length ∧ σ3.size = σ2.size := by
+  intro σ σ1 σ2 σ3
+  have hr := (vreach_rel cat ops).1
+  have hr1 := vacuum_rel σ _ hr
+  have hr2 := vacuum_rel σ1 _ hr1
+  have hs2 : σ2.size = σ2.rows.length := by
+    apply size_vacuum_eq_rows σ1 _ hr1
+    intro r hrm w hw
+    have hlt := vacuum_no_stamp_at_horizon σ _ hr r hrm w.creator (by
+      simp only [Row.owners, List.mem_append, List.mem_map]
+      exact Or.inl ⟨w, List.mem_of_mem_tail hw, rfl⟩)
+    exact Nat.ne_of_lt hlt
+  have hs3 : σ3.size = σ3.rows.length := by
+    apply size_vacuum_eq_rows σ2 _ hr2
+    intro r hrm w hw
+    have hlt := vacuum_no_stamp_at_horizon σ1 _ hr1 r hrm w.creator (by
+      simp only [Row.owners, List.mem_append, List.mem_map]
+      exact Or.inl ⟨w, List.mem_of_mem_tail hw, rfl⟩)
+    exact Nat.ne_of_lt hlt
+  refine ⟨?_, vacuum_size_le _ _ σ1, vacuum_twice_rows_length σ _ hr, hs2, ?_⟩
+  · exact (hr2.core.committed).trans hr1.core.committed.symm
+  · rw [hs3, hs2]; exact vacuum_twice_rows_length σ1 _ hr1
+
+/-- the size part of the design's statement is false of the code-mirroring model: `vaccum_with` keeps the deltas whose `xmin`
+    equals the horizon, so a transaction that updated a row twice leaves two versions after the first VACUUM, one after the
+    second -/
+theorem vacuum_size_not_idempotent_witness :
+    let σ := reached catT (pre ++ [.op (.batch [.upd "t" "v" true (.int 1) none, .upd "t" "v" true (.int 1) none])])
+    (σ.vacuum {} {}).size = 4 ∧ ((σ.vacuum {} {}).vacuum {} {}).size = 2 := by
+  decide
+
+/-! ### bounded growth -/
+
+/-- one cycle: an autocommit statement, then VACUUM -/
+def cycle1 (τ : VState) (st : Stmt) : VState := vfinal Defects.none VDefects.none τ [.op (.auto st), .vacuum]
+
+def cycles : VState → List Stmt → VState
+  | τ, [] => τ
+  | τ, st :: sts => cycles (cycle1 τ st) sts
+
+/-- the design's statement, for arbitrary work between two VACUUMs: the size after each VACUUM is bounded by a function of the
+    number of rows alone -/
+def bounded_growth_statement : Prop :=
+  ∃ c : Nat → Nat, ∀ (cat : Catalog) (ops : List VOp),
+    ((reached cat ops).vacuum Defects.none VDefects.none).size ≤ c ((reached cat ops).vacuum Defects.none VDefects.none).rows.length
+
+theorem cycle1_db (τ : VState) (st : Stmt) :
+    (cycle1 τ st).db = ((step D0 τ.db (.auto st)).1).vacuum D0 V0 := by
+  unfold cycle1
+  simp only [vfinal, vstep]
+
+theorem cycle_step (τ : VState) (α : Spec.State) (h : VRel τ α)
+    (hK : ∀ r ∈ τ.db.rows, ∀ u ∈ r.owners, u < τ.db.lastCommitted) (st : Stmt) :
+    (∃ α', VRel (cycle1 τ st) α') ∧
+    (∀ r ∈ (cycle1 τ st).db.rows, ∀ u ∈ r.owners, u < (cycle1 τ st).db.lastCommitted) ∧
+    (cycle1 τ st).db.size = (cycle1 τ st).db.rows.length := by
+  have h1 := vstep_ok τ α h (.op (.auto st))
+  have hdb : (vstep D0 V0 τ (.op (.auto st))).1.db = (step D0 τ.db (.auto st)).1 := by simp [vstep]
+  have h2 := vstep_ok _ _ h1.2 .vacuum
+  have hrel1 : Rel (step D0 τ.db (.auto st)).1 (Spec.vstep α (.op (.auto st))).1 := by rw [← hdb]; exact h1.2.1
+  refine ⟨⟨_, h2.2⟩, ?_, ?_⟩
+  · rw [cycle1_db]; exact vacuum_no_stamp_at_horizon _ _ hrel1
+  · rw [cycle1_db]
+    apply size_vacuum_eq_rows _ _ hrel1
+    have htail := auto_tail τ.db α h.1 st (fun u => u < τ.db.lastCommitted ∧ u < τ.db.txns.length) (by
+      intro r hr w hw
+      have hown : w.creator ∈ r.owners := by
+        simp only [Row.owners, List.mem_append, List.mem_map]; exact Or.inl ⟨w, hw, rfl⟩
+      exact ⟨hK r hr _ hown, owners_lt τ.db 0 h.1.core.sinv r hr _ hown⟩)
+    intro r hr w hw
+    obtain ⟨g1, g2⟩ := htail r hr w hw
+    rcases auto_lastCommitted τ.db st with e | e <;> rw [e] <;> omega
+
+theorem cycles_invariant : ∀ (sts : List Stmt) (τ0 : VState), sts ≠ [] → (∃ α, VRel τ0 α) →
+    (∀ r ∈ τ0.db.rows, ∀ u ∈ r.owners, u < τ0.db.lastCommitted) →
+    (cycles τ0 sts).db.size = (cycles τ0 sts).db.rows.length
+  | [], _, h, _, _ => (h rfl).elim
+  | [st], τ0, _, ⟨α0, hr⟩, hK => by
+    show (cycle1 τ0 st).db.size = (cycle1 τ0 st).db.rows.length
+    exact (cycle_step τ0 α0 hr hK st).2.2
+  | st :: st2 :: rest, τ0, _, ⟨α0, hr⟩, hK => by
+    show (cycles (cycle1 τ0 st) (st2 :: rest)).db.size = (cycles (cycle1 τ0 st) (st2 :: rest)).db.rows.length
+    obtain ⟨hr', hK', _⟩ := cycle_step τ0 α0 hr hK st
+    exact cycles_invariant (st2 :: rest) _ (by simp) hr' hK'
+
+/-- **Bounded growth.**  Start anywhere (any history `ops`), run VACUUM once, then any number of cycles
+    "one autocommit statement (an UPDATE of every row, or any other statement, failing ones included); VACUUM": after every
+    cycle the store holds exactly one version per row and no delete mark — `size = number of rows`, however many cycles
+    have run.  Version chains do not grow. -/
+theorem bounded_growth (cat : Catalog) (ops : List VOp) (sts : List Stmt) (hne : sts ≠ []) :
+    (cycles (vfinal Defects.none VDefects.none (VState.init cat) (ops ++ [.vacuum])) sts).db.size =
+      (cycles (vfinal Defects.none VDefects.none (VState.init cat) (ops ++ [.vacuum])) sts).db.rows.length := by
+  have hrel0 := vreach_rel cat ops
+  have h0 := vstep_ok _ _ hrel0 .vacuum
+  apply cycles_invariant sts _ hne
+  · rw [vfinal_append]; exact ⟨_, h0.2⟩
+  · rw [vfinal_append]
+    exact vacuum_no_stamp_at_horizon _ _ hrel0.1
+
+example : cycles (VState.init catT) [.upd "t" "v" true (.int 1) none] =
+    vfinal Defects.none VDefects.none (VState.init catT) [.op (.auto (.upd "t" "v" true (.int 1) none)), .vacuum] := rfl
+
+/-! ### forgetting aborted transactions -/
+
+/-- **Forgetting is unobservable after the specification's VACUUM.**  `cleanup_old_transactions` forgets aborted transactions
+    below the horizon, after which their stamps are read as committed (`forgetAux`, flag `cleanupForgetsAborted`).  After the
+    specification's row pass no stored row carries a stamp of an aborted transaction, so whichever of them are relabelled
+    (any bound `h`), a transaction beginning after the VACUUM reads the same. -/
+theorem forget_aborted_unobservable (cat : Catalog) (ops : List VOp) (h : Nat) :
+    let σv := (reached cat ops).vacuum Defects.none VDefects.none
+    view Defects.none (State.freshSnap Defects.none { σv with txns := forgetAux h σv.txns 0 }) σv.rows =
+      view Defects.none (σv.freshSnap Defects.none) σv.rows := by
+  intro σv
+  have hr := (vreach_rel cat ops).1
+  have hr1 := vacuum_rel _ _ hr
+  apply filterMap_congr_mem
+  intro r' hr'
+  apply toARow_congr
+  intro u hu
+  -- u is committed in σv
+  have hr'' := hr'
+  rw [show σv.rows = vacuumRows V0 (vacSnap (reached cat ops)) (reached cat ops).lastCommitted (reached cat ops).rows from vacuum_rows _] at hr''
+  obtain ⟨r, hrm, hv⟩ := mem_vacuumRows.1 hr''
+  obtain ⟨s1, _, s3, _⟩ := vacuum_row_shape _ _ hr r r' hrm hv
+  have hu' : u ∈ r'.versions.map (·.creator) := by
+    simp only [Row.owners, s1, List.append_nil] at hu; exact hu
+  obtain ⟨w, hw, rfl⟩ := List.mem_map.1 hu'
+  obtain ⟨t, ht, hst⟩ := s3 w hw
+  obtain ⟨t', g1, g2⟩ := frame_finished (reached cat ops) (vacuumRows V0) _ t ht (by rw [hst]; simp)
+  have g1' : σv.txns[w.creator]? = some t' := g1
+  have hcomm : t'.status = Status.committed := by rw [g2, hst]
+  -- both snapshots see it
+  have hlen : (forgetAux h σv.txns 0).length = σv.txns.length := length_forgetAux h _ 0
+  have hfg : (forgetAux h σv.txns 0)[w.creator]? = some t' := by
+    rw [getElem?_forgetAux, g1']
+    simp [hcomm]
+  have hle : w.creator ≤ σv.lastCommitted := hr1.core.cinv.lc_max _ t' g1' hcomm
+  have hne : w.creator ≠ σv.txns.length := Nat.ne_of_lt (getElem?_lt g1')
+  have notin : ∀ (txns : List Txn) (st : Status), txns[w.creator]? = some t' → st ≠ Status.committed →
+      w.creator ∉ idsWith st txns 0 := by
+    intro txns st hg hst' hm
+    obtain ⟨t2, h2, h3⟩ := (mem_idsWith0 st txns w.creator).1 hm
+    rw [hg] at h2; cases h2
+    rw [hcomm] at h3; exact hst' h3.symm
+  have see : ∀ (txns : List Txn), txns.length = σv.txns.length → txns[w.creator]? = some t' →
+      (State.freshSnap Defects.none { σv with txns := txns }).sees w.creator = true := by
+    intro txns hl hg
+    have e := freshSnap_none { σv with txns := txns }
+    rw [show State.freshSnap Defects.none { σv with txns := txns } = State.freshSnap D0 { σv with txns := txns } from rfl, e]
+    simp only [Snapshot.sees, Snapshot.cb, Bool.or_eq_true, beq_iff_eq, Bool.and_eq_true, Bool.not_eq_eq_eq_not, Bool.not_true,
+      decide_eq_false_iff_not, List.contains_eq_mem]
+    right
+    refine ⟨⟨by omega, ?_⟩, ?_⟩
+    · exact notin txns .active hg (by simp)
+    · exact notin txns .aborted hg (by simp)
+  rw [see _ hlen hfg]
+  have := see σv.txns rfl g1'
+  exact this.symm
 
 end AxVerif.Db.C13
